@@ -85,8 +85,6 @@ def analyse(task):
     flags = set(task['flags'])
     seq = [(c, list(a)) for c, a in task['seq']]
     forms = task['forms']
-    if task.get('symmult') and 'opt' in forms:
-        raise ValueError('symbolic multipliers are only supported in the valid / feas / noexc forms')
     pc_flag, stab = 'pc' in flags, 'stab' in flags
     res = {'obligations': 0, 'discharged': 0, 'unknown': 0, 'cex': [], 'queries': 0,
            'solver_time': 0.0, 'paths': 0, 'nontrivial': 0, 'controls': {}}
@@ -210,6 +208,9 @@ def analyse(task):
         run = p.result
         J = run.inst
         _symseq[0] = p.notes.get('seq2') if task.get('symmult') else None
+        if task.get('symmult'):
+            seq = p.notes['seq2']          # the documented measure with the same symbolic multipliers
+            base['seq'] = [(c_, [a_ if isinstance(a_, int) else str(a_) for a_ in args_]) for c_, args_ in seq]
         if 'twopl' not in flags and J.lprefs is not None:
             # without the two-sided flag second-side lists in the file are ignored
             J = spec.Inst(J.na, J.ns, J.np, J.nl, J.prefs, J.plec, None,
@@ -448,8 +449,9 @@ def analyse(task):
                     goal = z3.And([spec.feasible(J, xk, pc_flag, stab, Z)] +
                                   [kk[j] >= V[j] for j in range(k)] +
                                   [lp.objective(sk, pt) <= kk[k]])
-                    r_, _ = ask(pc + wf + [lp.P(sk, pt), z3.Not(goal)], 'ind-S')
+                    r_, m_ = ask(pc + wf + [lp.P(sk, pt), z3.Not(goal)], 'ind-S')
                     if r_ != 'unsat':
+                        ind_model.append(m_)
                         return False
                     fixed = {id(pr.lp_var): xo[(pr.studentID, pr.projectID)]
                              for pr in pairs if id(pr.lp_var) in pt.v}
@@ -460,14 +462,39 @@ def analyse(task):
                     ko = keys_pt(xo)
                     body = z3.Not(z3.And(lp.P(sk, cp), lp.objective(sk, cp) >= ko[k]))
                     q = lp.forall(aux, body)
-                    r_, _ = ask_split(pc + wf + dom + [feas] + [ko[j] >= V[j] for j in range(k)] + [q], xo, 'ind-C')
+                    r_, m_ = ask_split(pc + wf + dom + [feas] + [ko[j] >= V[j] for j in range(k)] + [q], xo, 'ind-C')
                     if r_ != 'unsat':
+                        ind_model.append(m_)
                         return False
                 return True
 
+            ind_model = []
             if inductive():
                 r, m = 'unsat', None
                 res['controls']['opt_by_induction'] = res['controls'].get('opt_by_induction', 0) + 1
+            elif task.get('symmult'):
+                # symbolic multipliers: a failed local obligation yields concrete multipliers; the exact decision is made
+                # for those (the exact chain with symbolic multipliers under a quantifier is out of z3's reach)
+                res['obligations'] -= 1
+                if ind_model and ind_model[0] is not None:
+                    conc_seq = [(c_, [a_ if isinstance(a_, int) else int(replay.mval(ind_model[0], a_)) for a_ in args_]) for c_, args_ in seq]
+                    saved = (_deadline[0], _symseq[0])
+                    sub = dict(task, seq=conc_seq, symmult=False, negctl=False)
+                    r2 = analyse(sub)
+                    _deadline[0], _symseq[0] = saved
+                    for k_ in ('obligations', 'discharged', 'unknown', 'queries', 'solver_time'):
+                        res[k_] += r2[k_]
+                    res['cex'].extend(r2['cex'])
+                    res['controls']['symmult_concretised'] = res['controls'].get('symmult_concretised', 0) + 1
+                    if not r2['cex']:
+                        # the sufficient condition failed for these multipliers but the exact decision for them is fine:
+                        # nothing is known about the other multiplier values
+                        res['obligations'] += 1
+                        res['unknown'] += 1
+                else:
+                    res['obligations'] += 1
+                    res['unknown'] += 1
+                continue
             else:
                 res['controls']['opt_by_exact_chain'] = res['controls'].get('opt_by_exact_chain', 0) + 1
                 r, m = ask_chain(lambda ch: pc + wf + dom + ch + [feas, better], 'opt')
@@ -493,7 +520,7 @@ def analyse(task):
                 r, _ = ask_chain(lambda ch: pc + wf + dom + ch + [feas, worse], 'negctl')
                 res['controls']['negctl_sat'] = res['controls'].get('negctl_sat', 0) + (1 if r == 'sat' else 0)
 
-    res['sample'] = {'shape': task['shape'], 'flags': sorted(flags), 'seq': seq, 'forms': forms,
+    res['sample'] = {'shape': task['shape'], 'flags': sorted(flags), 'seq': task['seq'], 'forms': forms,
                      'obligations': res['obligations'],
                      'first_query': {'form': first_smt[0][0], 'smt2_prefix': first_smt[0][1]} if first_smt else None}
     return res
